@@ -868,9 +868,15 @@ def run(ctx: Any, prog: Program) -> None:
     # ---- P4 ------------------------------------------------------------------------------------------
     kc = kv.func('Keyvalues.copy')
     comps = [n for n in ast.walk(kc) if isinstance(n, ast.ListComp)]
-    ok = len(comps) == 1 and isinstance(comps[0].elt, ast.Call) and isinstance(comps[0].elt.func, ast.Attribute) and comps[0].elt.func.attr == 'copy' \
-        and dotted(comps[0].generators[0].iter) == 'self._value'
-    ctx.check('C09.P4', ok, kv, kc, 'Keyvalues.copy must rebuild the child list from child.copy() of every child', text='deep child copy')
+    # what the comprehension walks: self._value itself, or a local that was assigned self._value
+    val_aliases = {'self._value'} | {t.id for a in ast.walk(kc) if isinstance(a, ast.Assign) and dotted(a.value) == 'self._value' for t in a.targets if isinstance(t, ast.Name)}
+    shaped = len(comps) == 1 and isinstance(comps[0].elt, ast.Call) and isinstance(comps[0].elt.func, ast.Attribute) and comps[0].elt.func.attr == 'copy' and len(comps[0].generators) == 1
+    ok = shaped and dotted(comps[0].generators[0].iter) in val_aliases and not comps[0].generators[0].ifs and isinstance(comps[0].elt.func.value, ast.Name) \
+        and isinstance(comps[0].generators[0].target, ast.Name) and comps[0].elt.func.value.id == comps[0].generators[0].target.id
+    if not comps:
+        ctx.shape('C09.P4', False, kv, kc, 'Keyvalues.copy: the comprehension that copies the children was not found', text='deep child copy')
+    else:
+        ctx.check('C09.P4', ok, kv, kc, 'Keyvalues.copy must rebuild the child list from child.copy() of every child', text='deep child copy')
     # does Keyvalues.<m>(x) store x itself?  (append does - it is documented to take ownership; extend copies)
     def stores_argument(mname: str) -> bool:
         m_ = kv.func('Keyvalues.' + mname)
